@@ -65,8 +65,11 @@ def o_constants_only(prog):
     if _GEN is None:
         import json, os
         _GEN = json.load(open(os.path.join(os.path.dirname(os.path.dirname(__file__)), "gen.json"), encoding="utf-8"))
+    vflag = False
+    if isinstance(prog, str) and prog.startswith("\x00V:"):      # the `V` flag (one-character variable names): a lexer mode
+        vflag, prog = True, prog[3:]
     try:
-        code = transpile(prog)
+        code = transpile(prog, True, vflag)
     except Exception as ex:  # noqa: BLE001  "if it returns code"
         return True, f"no code returned ({type(ex).__name__})"
     try:
@@ -130,6 +133,14 @@ def run(ctx, widen=False):
     progs += uni
     ctx.bump("random code-page strings", nr)
     ctx.bump("random unicode strings", len(uni))
+    # the V flag changes how a variable name is cut out of the program text: every code-page character and a sample of other
+    # letters right behind an arrow, the adversarial payloads behind an arrow, and random code-page strings, all with the flag on
+    vprogs = [a + c + t for a in "→←" for c in cp for t in ("", "1", "a")]
+    vprogs += [a + chr(u) for a in "→←" for u in list(range(0xAA, 0x250)) + [0x3B1, 0x3BB, 0x410, 0x5D0, 0x4E00, 0xFF46, 0x1D400, 0x2160, 0xB2, 0x2082]]
+    vprogs += [pos.replace("{}", "".join(t)) for pos in ("←{}", "→{}", "⟨←{}⟩", "λ→{};") for L in (1, 2) for t in itertools.product(ADV, repeat=L)]
+    vprogs += ["".join(rng.choice(cp + "→←→←") for _ in range(rng.randint(1, 30))) for _ in range(nr // 4)]
+    ctx.bump("programs transpiled with the V flag", len(vprogs))
+    progs += ["\x00V:" + v for v in vprogs]
     progs = list(dict.fromkeys(progs))
     ctx.check_many("constants_only", progs)
     ctx.exhaustive = True
